@@ -14,6 +14,7 @@
         18 roundtrip                -> []   crate: sketch := deserialize(serialize(sketch)); model: unchanged, except
                                             that the copy always owns a (possibly empty) table  (C11)
         19 ser       [seed_hash]    -> the bytes of serialize()   (not produced by the model: masked; C12 oracle)
+        32 max_bytes [lg_k]         -> [CpcSketch::max_serialized_bytes(lg_k)]
         40 deser     [bytes...]     -> crate only (masked): [0] = Err | 1 :: float-free dump of the Ok value, which is then
                                        used (estimate, validate, updates, serialize, union); C14 oracle
         41 mut_deser [kind; pos; val] -> as 40 on a mutation of the current sketch's own image (kind 0 flip bit pos,
@@ -44,7 +45,7 @@
         23 un_result [uslot; slot]         -> sk_dump of to_sketch(), which is stored in [slot]
    kxp / HIP are not observed on this path: the accumulator's float registers depend on the order in which
    the source's hash-table slots are walked, and are dead once merge_flag is set. *)
-From DS Require Import Base.Prelude Base.FloatBits Model.Cpc Model.CpcUnion Model.CpcPhase Model.CpcCheck Spec.CpcLayout.
+From DS Require Import Base.Prelude Base.FloatBits Model.Cpc Model.CpcUnion Model.CpcPhase Model.CpcCheck Model.CpcFrame Spec.CpcLayout.
 From Coq Require Import Floats FSets.FMapPositive.
 Open Scope Z_scope.
 
@@ -102,6 +103,7 @@ Definition step (cfg : list Z) (st : cstate) (o : zop) : cstate * list Z :=
   | 0 => match cpc_new (zN (nth 0 cfg 0)) with Ok s => (set_cur st (Some s), []) | _ => (set_cur st None, PANIC) end
   | 6 => (st, [Nz (determine_flavor (zN a0) (zN a1))])
   | 9 => (st, match determine_pseudo_phase (zN a0) (zN a1) with Ok p => [Nz p] | _ => PANIC end)
+  | 32 => (st, match max_serialized_bytes (zN a0) with Ok b => [Nz b] | _ => PANIC end)
   | 40 | 41 => (st, [])
   | 30 => let lgk := zN a0 in let c := (zN a1 * 2 ^ lgk + zN (nth 2 a 0%Z))%N in
           (st, [Nz c; Nz (determine_flavor lgk c); Nz (determine_correct_offset lgk c); 1; 1; Nz c; 1])
